@@ -222,6 +222,8 @@ func (e *Engine) loadTemplates(filtername string) error {
 		return errors.New("Can not preload all templates again")
 	}
 
+	verifYield("load:locked")
+
 	loaded := false
 	defer func() {
 		if !loaded {
@@ -383,6 +385,7 @@ func (e *Engine) Render(ctx context.Context, templateName string, data interface
 	// recompile, make sure to fully load only once!
 	if atomic.LoadInt32(&e.templatesLoaded) == 0 && !e.Debug {
 		_, spanLoad := trace.StartSpan(ctx, "pug/loadAllTemplates")
+		verifYield("render:after-loaded-check")
 		if err := e.loadTemplatesOnce(); err != nil {
 			spanLoad.End()
 			return nil, err
@@ -397,6 +400,8 @@ func (e *Engine) Render(ctx context.Context, templateName string, data interface
 		}
 		spanLoad.End()
 	}
+
+	verifYield("render:after-load")
 
 	// make sure template loading has finished by now!
 	e.RLock()
